@@ -26,7 +26,8 @@ Scripts(len) == UNION {[1..k -> {0, 1}] : k \in 0..len}
 PanicScripts(len) == {Append([i \in 1..k |-> 1], 2) : k \in 0..len}
 \* (2147483647 stands for usize::MAX: an upper bound that cannot be incremented, a lower bound beyond every N)
 Hints(nn) == {<<0, -1>>, <<0, nn + 5>>, <<nn, nn>>, <<nn + 1, -1>>, <<nn + 2, nn + 2>>, <<0, 0>>, <<1, 1>>,
-              <<0, 2147483647>>, <<2147483647, -1>>}
+              <<0, 2147483647>>, <<2147483647, -1>>,
+              <<nn + 2, 1>>, <<2147483647, 0>>}            \* self-contradictory: lower bound above the upper bound
              \cup (IF nn > 0 THEN {<<0, nn - 1>>} ELSE {})
 
 Init ==
